@@ -255,6 +255,7 @@ impl Report {
 
 thread_local! {
     static LAST_PANIC: std::cell::RefCell<Option<String>> = const { std::cell::RefCell::new(None) };
+    static GUARDED: std::cell::Cell<u32> = const { std::cell::Cell::new(0) };
 }
 
 pub fn install_quiet_panic_hook() {
@@ -267,13 +268,20 @@ pub fn install_quiet_panic_hook() {
         } else {
             "panic".to_string()
         };
+        if GUARDED.with(|g| g.get()) == 0 {
+            // not inside a guarded call of the code under test: a bug of the harness itself
+            eprintln!("harness panic: {} at {}", msg, loc);
+        }
         LAST_PANIC.with(|p| *p.borrow_mut() = Some(format!("{} at {}", msg, loc)));
     }));
 }
 
 /// Run `f`; a panic becomes `Err("<message> at <file>:<line>")`.
 pub fn no_panic<T>(f: impl FnOnce() -> T) -> Result<T, String> {
-    match catch_unwind(AssertUnwindSafe(f)) {
+    GUARDED.with(|g| g.set(g.get() + 1));
+    let r = catch_unwind(AssertUnwindSafe(f));
+    GUARDED.with(|g| g.set(g.get() - 1));
+    match r {
         Ok(v) => Ok(v),
         Err(_) => Err(LAST_PANIC.with(|p| p.borrow_mut().take()).unwrap_or_else(|| "panic".into())),
     }
